@@ -237,10 +237,17 @@ def _flavor(cell, elems, ctx):
     be = cell["backend"]
     ka = {"object": "object", "numpy": "np1", "awkward": "jagged"}[be]
     res = {}
-    for fa, fb in (("g", "g"), ("m", "g"), ("m", "m"), ("g", "m")):
-        if not cell["db"] and fb == "m":
+    variants = [("g", "g", None), ("m", "g", None), ("m", "m", None), ("g", "m", None)]
+    if be == "awkward":
+        # Awkward records whose fields literally carry the momentum names (px py pt pz, and each of E/e/energy, mass/M/m)
+        variants += [("m", "m", 0), ("m", "g", 1), ("m", "m", 2)]
+    for fa, fb, alt in variants:
+        if not cell["db"] and fb == "m" and alt is None:
             continue
         cfg = dict(cell, ka=ka, kb=(ka if cell["db"] else None), fa=fa, fb=fb if cell["db"] else None, scal="py")
+        if alt is not None:
+            cfg.update(spa="momentum", spb="momentum" if fb == "m" else "generic", alt=alt)
+        fb = (fb, alt)
         o = lattice.evaluate(cfg, elems, want_ref=False)
         ctx.evaluation()
         if o.skipped:
@@ -253,7 +260,7 @@ def _flavor(cell, elems, ctx):
                 res[(fa, fb)] = ("ok", _bits(o.result)[:2] + _bits(o.result)[3:] if _bits(o.result)[0] == "vec" else _bits(o.result))
             except Exception as e:  # noqa: BLE001
                 res[(fa, fb)] = ("unreadable", type(e).__name__)
-    base = res[("g", "g")]
+    base = res[("g", ("g", None))]
     for k, v in res.items():
         if v != base:
             _fail(ctx, cell, op.name, "flavor_changes_value", f"{op.name} on flavors {k} gives {str(v)[:300]} but on generic operands "
